@@ -208,8 +208,18 @@ func (g *Global) callMods(out map[string]modInfo, c *ssa.CallCommon, closureOf f
 // modsetOfFunc: heap names a function may write (transitively), by contract if trusted/external.
 func (g *Global) modsetOfFunc(f *ssa.Function) map[string]modInfo {
 	key := g.funcKey(f)
-	if _, isLib := libNoEffect[key]; isLib {
+	if _, isLib := libNoEffect[key]; isLib && key != "proto.Clone" {
 		return nil
+	}
+	if key == "proto.Clone" {
+		// allocation-only: every raftpb message field heap may receive fresh objects
+		out := map[string]modInfo{}
+		for n, srt := range g.heapRegistry() {
+			if strings.HasPrefix(n, "F$raftpb.") || strings.HasPrefix(n, "C$") || strings.HasPrefix(n, "E$uint8") || strings.HasPrefix(n, "E$uint64") || strings.HasPrefix(n, "E$*raftpb.") {
+				out[n] = modInfo{sort: srt, mutates: false}
+			}
+		}
+		return out
 	}
 	if key == "slices.Sort" {
 		out := map[string]modInfo{}
